@@ -13,7 +13,7 @@ from sim.core import sub_rng
 
 PROP = "C18"
 LEVEL = "exploration"
-TIERS = {"quick": dict(runs=20000, chunk=500), "thorough": dict(budget_s=480, max_runs=10_000_000, chunk=2000)}
+TIERS = {"quick": dict(runs=20000, chunk=500), "thorough": dict(budget_s=480, max_runs=10_000_000, chunk=400)}
 RULE = ("one case = 1-2 base signals (scalar or array of rank<=3, real/complex, with/without pre-allocated sensitivity) and "
         "up to 20 generated operations {slice, nested slice, set state, set sensitivity, add_sensitivity (fresh / same object "
         "to two signals / mutated by the caller afterwards), reset(keep_alloc), slice reset}; slices are described by "
@@ -56,7 +56,7 @@ def gen(rng, idx, tier):
     ops = []
     kinds = ["slice", "nest", "set_state", "set_sens", "add", "add", "add", "reset", "alias2", "mutate"]
     enabled = [k for k in kinds if rng.random() < 0.8] or ["add"]
-    for _ in range(int(rng.integers(2, 21))):
+    for _ in range(int(rng.integers(2, 45 if tier == "thorough" else 21))):
         k = str(rng.choice(enabled))
         op = dict(op=k, tgt=int(rng.integers(0, 64)), tgt2=int(rng.integers(0, 64)), seed=int(rng.integers(1 << 30)))
         if k in ("slice", "nest"):
